@@ -433,7 +433,7 @@ contract(SCH + "._Enc", modifies_ghost=["rng_n", "sample0"], params=dict(self=SC
                     "K2 == prf('sha1', self.config.param_lambda, K, b'\\x02' + keyword)",
                     ])},     # (A and the free list are not touched by loop 3: what loop 2 established about them is still known)
          budget=5,     # heavy quantified context (two nested loops, three quantified invariants): the search is sensitive to the solver's seed
-         no_runtime=True, props=["C01", "C02", "C05", "C06"])
+         no_runtime=True, props=["C01", "C02", "C04", "C05", "C06", "C07"])
 
 # ---- Search: given Repr (dictionary part + array part over the same sampled arrangement) and the token of gq, the result is DB[gq] --------
 kwpos = specfn("kwpos", [DBT, TBytes], TInt, macro=True, doc="insertion position of keyword w in the database (B4)")
@@ -539,7 +539,7 @@ contract(SCH + "._Search", params=dict(self=SCHT, edb=EDBT, tk=TOKT), returns=RE
                                ("div_lower", ["len(gDB[gq]) + self.config.param_B - 1", "1", "self.config.param_B"]),
                                ("blocks_mono2", ["gDB", "kwpos(gDB, gq) + 1", "len(gDB)", "self.config.param_B"])])},
          unfold_only=["pt_repr", "pt_inv", "a_inv", "valid_db", "ne_db", "part", "is_enc", "dec", "dec_ok", "ipay", "cdivf", "blocks_upto", "kwpos"],
-         budget=5, no_runtime=True, props=["C01", "C02"])
+         budget=5, no_runtime=True, props=["C01", "C02", "C07"])
 
 inline("toolkit/prf/__init__.py:get_prf_implementation", "toolkit/symmetric_encryption/__init__.py:get_symmetric_encryption_implementation",
        "schemes/interface/config.py:SSEConfig.__init__", "schemes/interface/config.py:SSEConfig.check_param_exist",
